@@ -1,4 +1,9 @@
-import Sigc
+import Sigc.Run
+import Sigc.Spec
+import Sigc.Trk
+import Sigc.Adapt
+import Sigc.Visit
+import Sigc.Types
 
 /-!
   `sigc_model <mode>` — line-protocol driver of the Lean models.
